@@ -185,6 +185,15 @@ func gWrite(o Object, format string) ([]byte, error) {
 	return tl2(o, nil)
 }
 
+// hugeLength: the generated reader's length-sanity error names a count above 2^20.
+func hugeLength(err error) bool {
+	var n uint64
+	if i := strings.Index(err.Error(), "invalid length: "); i >= 0 {
+		fmt.Sscanf(err.Error()[i:], "invalid length: %d", &n)
+	}
+	return n > 1<<20
+}
+
 func unhex(s string) []byte {
 	b, _ := hex.DecodeString(s)
 	return b
@@ -255,6 +264,10 @@ func checkC12(reg *Registry, c interpCase) pbt.Result {
 	gRest, gErr := gRead(dec, c.Format, in)
 	if gErr != nil && strings.Contains(gErr.Error(), "panicked") {
 		return pbt.Result{Classes: []string{"generated-reader-panicked"}} // C08's business
+	}
+	if gErr != nil && c.Source == "mutated" && c.Format != "tl2" && isF5(gErr) && hugeLength(gErr) && pbt.Known("F31") && !pbt.Replaying() {
+		// the interpreter would allocate the declared count first (known finding F31): not worth a dead helper process
+		return pbt.Result{Excluded: "F31"}
 	}
 	ir, died, bad := ask(interpReq{Op: "read", In: hex.EncodeToString(in)})
 	if bad != nil {
